@@ -17,6 +17,7 @@ pub mod c15_rates;
 pub mod c16;
 pub mod c18;
 pub mod fmtgrid;
+pub mod selftest;
 pub mod c17;
 
 use crate::core::{Block, Report};
@@ -38,6 +39,7 @@ pub fn collect(prop: &str, blocks: &mut Vec<Block>, setup: &mut Report) {
         "C16" => c16::collect(blocks, setup),
         "C17" => c17::collect(blocks, setup),
         "C18" => c18::collect(blocks, setup),
+        "selftest" => selftest::collect(blocks, setup),
         "list" => {}
         _ => setup.machinery.push(format!("unknown property {prop}")),
     }
